@@ -761,7 +761,7 @@ pub fn run(ctx: &mut Ctx) {
     ctx.run_prop("library", t.pick(200_000, 5_000_000), || crate::gen::tape(1600).prop_map(gen_lib), judge_lib);
     if CLI.get().map(|p| p.exists()).unwrap_or(false) {
         ctx.shrink_iters = 150;
-        ctx.run_prop("cli", t.pick(3000, 20_000), || crate::gen::tape(1200).prop_map(gen_cli), judge_cli);
+        ctx.run_prop("cli", t.pick(5000, 30_000), || crate::gen::tape(1200).prop_map(gen_cli), judge_cli);
         if t == Tier::Thorough {
             if CLI_PLAIN.get().map(|p| p.exists()).unwrap_or(false) {
                 ctx.run_prop("cli-plain", 10_000, || crate::gen::tape(1200).prop_map(|t| CliCase { plain: true, ..gen_cli(t) }), judge_cli);
